@@ -162,11 +162,16 @@ where
         let max_chroma =
             LuvBounds::from_lightness(color.l.clone()).max_chroma_at_hue(color.hue.clone());
 
-        Hsluv::new(
-            color.hue,
-            color.chroma / max_chroma * T::from_f64(100.0),
-            color.l,
-        )
+        // The gamut collapses to a point for black, which leaves no chroma
+        // range to relate the saturation to.
+        let divisor: f64 = max_chroma.clone().into();
+        let saturation = if divisor.is_normal() {
+            color.chroma / max_chroma * T::from_f64(100.0)
+        } else {
+            T::from_f64(0.0)
+        };
+
+        Hsluv::new(color.hue, saturation, color.l)
     }
 }
 
